@@ -4,7 +4,7 @@ import ast
 from ..core import sym
 from ..core.expand import u, call_name, get_arg, bind_args, Expander, is_marker, phi_alternatives
 from ..core.loader import Inconclusive, const_value, parents
-from .common import (returns, all_nodes, callee, strip_shape, calls_in, guards_of, stmt_of, loops_around, kw,
+from .common import (holds_on_every_path, returns, all_nodes, callee, strip_shape, calls_in, guards_of, stmt_of, loops_around, kw,
                      find_assignments, in_loop, dict_literal_items)
 
 EXPLANATION = (
@@ -245,7 +245,7 @@ def rule_effects(ck):
         for a in find_assignments(f, 'self.catalog'):
             o = ck.ob('C04-D4.assign', f, a, a)
             g = guards_of(a, f.node)
-            ok = any(isinstance(t, ast.Name) and t.id == 'in_place' and pol for t, pol in g)
+            ok = holds_on_every_path(a, 'in_place', f.node)
             val_ok = isinstance(a.value, ast.Name) and a.value.id == 'filtered'
             if not ok:
                 o.fail('self.catalog is assigned outside the in_place branch: with in_place=False the original catalog changes')
